@@ -395,6 +395,21 @@ class Models:
                 else:
                     eng.raise_exc(st, "KeyError", node)
                 return
+            keys = [k for k in obj.items if not isinstance(k, tuple)]
+            if keys and isinstance(idx, V) and all(isinstance(obj.items[k], V) for k in keys):
+                # symbolic key into a python-level dict with concrete keys: case split
+                hit = z3.Or([eng.eq(idx, const(k), st) for k in keys])
+                if eng.no_prune:
+                    vals = [obj.items[k] for k in keys]
+                    yield st, eng.ite_value(st, [eng.eq(idx, const(k), st) for k in keys], vals)
+                    return
+                for st1, found in eng.fork(st, hit, f"dictkey@{getattr(node, 'lineno', '?')}"):
+                    if found:
+                        vals = [obj.items[k] for k in keys]
+                        yield st1, eng.ite_value(st1, [eng.eq(idx, const(k), st1) for k in keys], vals)
+                    else:
+                        eng.raise_exc(st1, "KeyError", node)
+                return
         if isinstance(obj, VNone):
             eng.raise_exc(st, "TypeError", node)
             return
@@ -437,6 +452,8 @@ class Models:
         if isinstance(obj, V):
             k = obj.kind
             if isinstance(k, Map):
+                eng.escape_value(st, idx)
+                eng.escape_value(st, v)
                 ke = eng.coerce(idx, k.key, st)
                 ve = eng.coerce(v, k.val, st)
                 yield st, V(k, self.map_store(k, obj.term, ke.term, ve.term))
@@ -709,6 +726,7 @@ class Models:
 
     # -- seq (list held in SMT)
     def seq_append(self, eng, s, args, kw, st, node):
+        eng.escape_value(st, args[0])
         x = eng.coerce(args[0], s.kind.elem, st)
         new = V(s.kind, s.kind.named(st, s.kind.append(s.term, x.term)))
         st.assume(s.kind.lemma_append(new.term, s.term, x.term))
@@ -785,6 +803,7 @@ class Models:
 
     # -- set
     def set_add(self, eng, s, args, kw, st, node):
+        eng.escape_value(st, args[0])
         x = eng.coerce(args[0], s.kind.elem, st)
         for st1 in self.write_back(eng, node, V(s.kind, z3.SetAdd(s.term, x.term)), st):
             yield st1, NONE
@@ -1298,10 +1317,6 @@ class Models:
             yield st, const("")
             return
         a = args[0]
-        if isinstance(a, V) and a.kind == INT:
-            ok, c = concrete(a)
-            yield st, (const(str(c)) if ok else V(STR, int_str(a.term)))
-            return
         yield st, eng.to_str(a, st)
 
     def bi_repr(self, eng, st, args, kw, node):
@@ -1463,6 +1478,8 @@ class Models:
         ent = eng.entry_state
         pre = st.copy()
         pre.heap, pre.pyheap, pre.ghost, pre.alloc = dict(ent.heap), dict(ent.pyheap), dict(ent.ghost), ent.alloc
+        pre.local_fields = {k: dict(v) for k, v in ent.local_fields.items()}
+        pre.fresh_refs, pre.fresh_terms = ent.fresh_refs, dict(ent.fresh_terms)
         frame = {"__closure__": st.frames[-1]}
         for k, v in ent.frames[-1].items():
             if k != "__closure__":
